@@ -51,12 +51,37 @@ func resourceBomb(src string) bool {
 	// a macro whose name occurs three times or more (declaration, a call, and possibly a call
 	// from its own body) may recurse without a terminating condition: exempt by the statement,
 	// and it ends in a fatal stack overflow of the worker rather than in a result
+	if possiblyRecursiveMacro(src) {
+		return true
+	}
+	return strings.Count(src, "range") > 1 || strings.Count(src, "{% for") > 3
+}
+
+// selfRecursiveMacro: between a macro declaration and the next endmacro the macro's own name is
+// called (textually). Unconditional recursion of this kind ends in a fatal stack overflow.
+func selfRecursiveMacro(src string) bool {
+	for _, loc := range macroDecl.FindAllStringSubmatchIndex(src, -1) {
+		name := src[loc[2]:loc[3]]
+		rest := src[loc[1]:]
+		if end := strings.Index(rest, "endmacro"); end >= 0 {
+			rest = rest[:end]
+		}
+		if strings.Contains(rest, name+"(") || strings.Contains(rest, name+" (") {
+			return true
+		}
+	}
+	return false
+}
+
+// possiblyRecursiveMacro: the source declares a macro whose name occurs often enough for a call
+// from its own body, or uses _self
+func possiblyRecursiveMacro(src string) bool {
 	for _, m := range macroDecl.FindAllStringSubmatch(src, -1) {
 		if strings.Count(src, m[1]+"(") >= 3 || strings.Contains(src, "_self") {
 			return true
 		}
 	}
-	return strings.Count(src, "range") > 1 || strings.Count(src, "{% for") > 3
+	return false
 }
 
 var macroDecl = regexp.MustCompile(`macro\s+([A-Za-z_][A-Za-z0-9_]*)`)
